@@ -332,6 +332,10 @@ class IterProtocol:
         out = []
         if isinstance(v, (IntV, BoolV)):
             out.append((prefix, v))
+        elif isinstance(v, IterV):
+            out.append((prefix + ("pos",), IntV(v.pos, "usize")))
+        elif isinstance(v, StructV) and v.adt == "std::option::Option":
+            pass    # optional state is havocked on every step, never constrained
         elif isinstance(v, StructV):
             for k, x in v.fields.items():
                 out.extend(self.leaves(x, prefix + (k,)))
@@ -339,8 +343,21 @@ class IterProtocol:
 
     def havoc(self, v, lab):
         syms = {}
+        self.opt_fields = []      # (path, payload type sample) optional fields: both shapes are explored
+        self.iter_bounds = []     # built-in facts 0 <= pos <= count of std iterators held in the state
 
         def rec(x, prefix):
+            if isinstance(x, IterV):
+                a = ("sym", ".".join(prefix + ("pos",)) + "@" + lab, "usize")
+                syms[prefix + ("pos",)] = (a, IntV(x.pos, "usize"))
+                N = self.I.loops.count_of(self.st, x.seq)
+                if N is not None:
+                    self.iter_bounds.append(flit(le(0, Lin.atom(a))))
+                    self.iter_bounds.append(flit(le(Lin.atom(a), N)))
+                return IterV(x.seq, Lin.atom(a))
+            if isinstance(x, StructV) and x.adt == "std::option::Option":
+                self.opt_fields.append(prefix)
+                return x
             if isinstance(x, IntV):
                 a = ("sym", ".".join(prefix) + "@" + lab, x.ty)
                 syms[prefix] = (a, x)
@@ -370,7 +387,55 @@ class IterProtocol:
         parts = [self.subst_formula(x, imap, bmap) for x in f[1]]
         return f_and(*parts) if k == "and" else f_or(*parts)
 
+    def shapes(self, cur):
+        """the iterator value with every optional field set to None / Some(fresh symbol)"""
+        outs = [cur]
+        for path in getattr(self, "opt_fields", []):
+            nxt = []
+            for c in outs:
+                for variant in ("None", "Some"):
+                    if variant == "None":
+                        val = NONE
+                    else:
+                        fld = self.opt_type(path)
+                        val = some(self.I.symbolic(fld, ("opt",) + path + (str(next(self.I.counter)),)) if fld is not None else Opaque("optional payload"))
+                    nxt.append(self.set_path(c, path, val))
+            outs = nxt
+        return outs
+
+    def opt_type(self, path):
+        """type index of the payload of the Option field at `path` of the iterator struct"""
+        adt = self.F.adts.get(self.v.adt)
+        t = None
+        cur = adt
+        for p in path:
+            if not cur:
+                return None
+            f = [f for f in cur["variants"][0]["fields"] if f["name"] == p]
+            if not f:
+                return None
+            t = self.F.types[f[0]["t"]]
+            cur = self.F.adts.get(t.get("def")) if t["k"] == "adt" else None
+        if t and t["k"] == "adt" and t["def"] == "std::option::Option":
+            return t["args"][0]
+        return None
+
+    def set_path(self, v, path, val):
+        if not path:
+            return val
+        f = dict(v.fields)
+        f[path[0]] = self.set_path(f[path[0]], path[1:], val)
+        return StructV(v.adt, v.variant, f)
+
     def step(self, cur, inv, extra, quiet):
+        key = None
+        out = []
+        for c in self.shapes(cur):
+            key, r = self.step1(c, inv, extra + getattr(self, "iter_bounds", []), quiet)
+            out.extend(r)
+        return key, out
+
+    def step1(self, cur, inv, extra, quiet):
         I = self.I
         s0 = self.st.clone()
         s0.frame = next(I.frames)
@@ -546,6 +611,12 @@ class IterProtocol:
             if l[0] == "le":
                 # relaxation by one (x <= c -> x <= c+1) catches counters that overshoot their guard once
                 singles.append(flit(("le", l[1] - 1)))
+        # a counter dominated by another counter (an item count below an iterator position)
+        ivals = list(isyms.values())
+        for a1 in ivals:
+            for a2 in ivals:
+                if a1 != a2:
+                    singles.append(flit(le(Lin.atom(a1), Lin.atom(a2))))
 
         def houdini(cands, assumed):
             cands = [c for c in cands if c not in (TRUE, FALSE)]
